@@ -150,9 +150,21 @@ def struct_case(cid, rng):
                 return float(arr[0]) if len(set(z[key])) == 1 and rng.random() < 0.5 else arr
             g_ = np.random.default_rng(rng.randrange(2 ** 32)) if cid % 2 else np.random.RandomState(rng.randrange(2 ** 32))
             prot = G_E_Phenotyping(gm, nenv=nenv, nrep=np.array(nrepv), var_env=vv("env"), var_rep=vv("rep"), var_err=vv("err"), rng=g_)
+            def saved_and_restored(o, grp):
+                # the configured protocol is written to an HDF5 file (at the root or under a group) and the trial is run by the
+                # protocol READ BACK from it (the genomic model is handed over again, as the reader asks)
+                import tempfile, os as _os, shutil as _sh
+                d_ = tempfile.mkdtemp(prefix="c14_")
+                try:
+                    fn_ = _os.path.join(d_, "prot.h5")
+                    o.to_hdf5(fn_, grp)
+                    return type(o).from_hdf5(fn_, grp, gpmod=gm)
+                finally:
+                    _sh.rmtree(d_, ignore_errors=True)
             if cid % 3 != 0:
-                how = ["deepcopy", "deepcopy()", "copy", "copy()"][(cid // 3) % 4]
-                prot = {"deepcopy": _copy.deepcopy, "copy": _copy.copy, "deepcopy()": lambda o: o.deepcopy(), "copy()": lambda o: o.copy()}[how](prot)
+                how = ["deepcopy", "deepcopy()", "copy", "copy()", "hdf5", "hdf5:sim/ptprot"][(cid // 3) % 6]
+                prot = {"deepcopy": _copy.deepcopy, "copy": _copy.copy, "deepcopy()": lambda o: o.deepcopy(), "copy()": lambda o: o.copy(),
+                        "hdf5": lambda o: saved_and_restored(o, None), "hdf5:sim/ptprot": lambda o: saved_and_restored(o, "sim/ptprot")}[how](prot)
                 c["copied"] = how
             df = prot.phenotype(pg)
             tcols = ["y%d" % t for t in range(T)]
